@@ -109,38 +109,41 @@ Print Assumptions package_path_slice_never_panics.
 
 (* ------------------------------------------------------------------ spans *)
 
-(** [spans_in_bounds]. FULL statement (property text): every span carried by a node of a returned tree
-    or by a returned error satisfies [off + len <= |src|] and both ends lie on character boundaries.
-    It is FALSE of the faithful model and of the code ([spans_in_bounds_refuted]).
-    [spans_in_bounds_partial] proves it for every span of every returned tree (identifiers, strings,
-    package names/paths, compound nodes, doc comments: [document_spans]) and for the span of every
-    returned error EXCEPT those reported at the end of the input ([found = None], the rule of
-    [Lexer::span]). *)
-Theorem spans_in_bounds_partial src :
+(** [spans_in_bounds] (property text, full strength): every span carried by a node of a returned tree
+    (identifiers, strings, package names/paths, compound nodes, doc comments: [document_spans]) or by a
+    returned error -- the errors reported at the end of the input ([found = None], the rule of
+    [Lexer::span]) included -- has both ends on character boundaries of the source ([span_ok]), hence
+    satisfies [off + len <= |src|] ([span_ok_in_bounds] above). Every error of the implementation's
+    grammar carries a span. *)
+Theorem spans_in_bounds src :
   match parse_document impl_flags impl_cfg src with
   | POk d _ => Forall (span_ok src) (document_spans d)
-  | PErr x => at_end_of_input x = false -> exists sp, perror_span x = Some sp /\ span_ok src sp
+  | PErr x => exists sp, perror_span x = Some sp /\ span_ok src sp
   | _ => True
   end.
-Proof. exact (spans_partial_lemma src). Qed.
-Print Assumptions spans_in_bounds_partial.
+Proof. exact (spans_lemma src). Qed.
+Print Assumptions spans_in_bounds.
 
-(** [spans_in_bounds_refuted]: (1) on the empty source the error span is (0,1): outside the source;
-    (2) on [package a:b // é] (17 bytes) the error span is (16,1): inside the source but it starts in
-    the middle of the two-byte character [é]. Both witnesses are replayed on the real parser by
-    [./check C14] (known finding [end-of-input-span]). *)
-Theorem spans_in_bounds_refuted :
-  (exists x sp, parse_document impl_flags impl_cfg w_empty = PErr x /\ perror_span x = Some sp /\
-                (byte_len w_empty < off sp + slen sp)%N) /\
-  (exists x sp, parse_document impl_flags impl_cfg w_midchar = PErr x /\ perror_span x = Some sp /\
-                (off sp + slen sp <= byte_len w_midchar)%N /\ ~ boundary w_midchar (off sp)).
-Proof.
-  split.
-  - eexists _, _. split; [exact eof_span_empty|]. split; [reflexivity|]. cbn. lia.
-  - destruct eof_span_midchar as [E Hlen]. eexists _, _. split; [exact E|]. split; [reflexivity|].
-    cbn [off slen]. split; [rewrite Hlen; lia|exact midchar_not_boundary].
-Qed.
-Print Assumptions spans_in_bounds_refuted.
+(** The rule itself: [Lexer::span] applied to a span whose ends are character boundaries yields a span
+    whose ends are character boundaries -- the whole character holding the byte before the span when the
+    span touches the end of the source, the empty span (0,0) when the source is empty. *)
+Theorem lexer_span_in_bounds src start stop :
+  boundary src start -> boundary src stop -> (start <= stop)%N -> span_ok src (lexer_span src start stop).
+Proof. exact (lexer_span_ok src start stop). Qed.
+Print Assumptions lexer_span_in_bounds.
+
+(** Regression of the former finding [end-of-input-span] (the byte-counting rule [start - 1], length 1):
+    (1) on the empty source the error span is now (0,0) (was (0,1): outside the source); (2) on
+    [package a:b // \u00e9] (17 bytes) it is now (15,2), the whole two-byte character (was (16,1): inside
+    it). Both texts are fixed cases of [./check C14] and must pass there. *)
+Theorem eof_span_witnesses_in_bounds :
+  (exists x, parse_document impl_flags impl_cfg w_empty = PErr x /\
+             perror_span x = Some {| off := 0; slen := 0 |} /\ span_ok w_empty {| off := 0; slen := 0 |}) /\
+  (exists x, parse_document impl_flags impl_cfg w_midchar = PErr x /\
+             perror_span x = Some {| off := 15; slen := 2 |} /\ span_ok w_midchar {| off := 15; slen := 2 |} /\
+             (15 + 2 <= byte_len w_midchar)%N).
+Proof. exact eof_witnesses_in_bounds. Qed.
+Print Assumptions eof_span_witnesses_in_bounds.
 
 (* ------------------------------------------------------------------ recursion depth *)
 
